@@ -419,6 +419,37 @@ def run(ctx):
     rcall = va.find_calls("self._reparameterisation.reset")
     ctx.ob("R-ORDER", "C07.7", vr, "verify_rescaling ends by resetting the reparameterisation state it touched, on every normal path", len(rcall) >= 1 and va.cfg.every_exit_path_passes(va.cfg.entry, [c[0] for c in rcall]), "")
     ctx.floor("C07.7", 6)
+
+    # ---- C07.8 the prime-space prior is offered only when it is the original prior / Jacobian ------------------
+    # a post-rescaling (logit / log / user pair) is not measure preserving for a uniform prior, so it must switch the
+    # offered prime prior off, and nothing may switch it back on afterwards
+    from ..callgraph import callgraph as _cg
+    import networkx as _nx
+    g_, _s = _cg(prog)
+    cpr = rtb.methods["configure_post_rescaling"]
+    ca = FA(cpr)
+    offs = ca.find(lambda s_: match_stmt("self.has_prime_prior = False", s_) is not None)
+    okoff = len(offs) == 1 and ("post_rescaling is not None", True) in [(src(e), t) for e, t in guard_facts(ca, offs[0])]
+    marks = ca.find(lambda s_: match_stmt("self.has_post_rescaling = True", s_) is not None)
+    ctx.ob("R-ORDER", "C07.8", cpr, "configuring a post-rescaling switches the offered prime prior off (and records has_post_rescaling) on every such path", okoff and len(marks) == 1 and ca.cfg.must_pass(offs[0], ca.cfg.exit, marks) or (okoff and len(marks) == 1 and ca.dominates(offs[0], marks[0])), "")
+    fam = [rtb] + prog.subclasses(rtb)
+    n_on = 0
+    for k in fam:
+        for f in k.methods.values():
+            fa = FA(f)
+            for nid in fa.find(lambda s_: match_stmt("self.has_prime_prior = True", s_) is not None):
+                n_on += 1
+                after = []
+                for cid, c in fa.find_expr(lambda e: isinstance(e, ast.Call)):
+                    tg = res.resolve_call(f, c, count=False) or []
+                    if any(h.qual == cpr.qual or (h.qual in g_ and cpr.qual in _nx.descendants(g_, h.qual)) for h in tg):
+                        if fa.cfg.can_follow(cid, nid):
+                            after.append(src(c)[:60])
+                guarded = any((src(e) == "self.has_post_rescaling" and t is False) or (src(e) == "not self.has_post_rescaling" and t is True) for e, t in guard_facts(fa, nid))
+                ctx.ob("R-ORDER", "C07.8", f, "the prime prior is never switched (back) on after a post-rescaling may have been configured, unless guarded by `not has_post_rescaling`", not after or guarded,
+                       f"`self.has_prime_prior = True` can execute after {after}: with a post-rescaling the offered (flat / transformed-bounds) prime prior is not the original prior divided by the Jacobian" if after else "")
+    ctx.require(n_on >= 2, "stores `self.has_prime_prior = True` not found")
+    ctx.floor("C07.8", 3)
     ctx.assumptions += ["the algebraic identities hold on the interior of the domain (positive symbols; the measure-zero singular sets named in the property are excluded)", "sympy's simplifier is trusted for the identities it proves; an identity it cannot prove is reported as ANALYSIS-INCOMPLETE or a failed obligation, never silently passed", "numerical round-trip error, support equality of prime priors and edge points are not decided"]
 
 
@@ -489,6 +520,7 @@ MUTANTS = [
     {"id": "inverse-not-reversed", "file": _RS, "old": "        for p, pp in zip(\n            reversed(self.parameters), reversed(self.prime_parameters)\n        ):", "new": "        for p, pp in zip(self.parameters, self.prime_parameters):", "expect": "reversed order"},
     {"id": "inverse-steps-misordered", "file": _RS, "edits": [(_RS, "            if self.has_pre_rescaling:\n                x[p], lj = self.pre_rescaling_inv(x[p])\n                log_j += lj\n        return x, x_prime, log_j", "        return x, x_prime, log_j"), (_RS, "            if self.has_post_rescaling:\n                x[p], lj = self.post_rescaling_inv(x_prime[pp])\n                log_j += lj\n            else:\n                x[p] = x_prime[pp]\n", "            if self.has_post_rescaling:\n                x[p], lj = self.post_rescaling_inv(x_prime[pp])\n                log_j += lj\n            else:\n                x[p] = x_prime[pp]\n            if self.has_pre_rescaling:\n                x[p], lj = self.pre_rescaling_inv(x[p])\n                log_j += lj\n")], "expect": "reverse order under the same guards"},
     {"id": "combined-same-order-both-ways", "file": "nessai/reparameterisations/combined.py", "old": "        if self.reverse_order:\n            return self.order\n        else:\n            return reversed(self.order)", "new": "        if self.reverse_order:\n            return reversed(self.order)\n        else:\n            return self.order", "expect": "from-prime order is the reverse"},
+    {"id": "prime-prior-re-enabled", "file": _RS, "edits": [(_RS, "        self.configure_pre_rescaling(pre_rescaling)\n        self.configure_post_rescaling(post_rescaling)\n\n        if offset:", "        if offset:"), (_RS, "        if prior == \"uniform\":\n            self.prior = \"uniform\"\n            self.has_prime_prior = True", "        self.configure_pre_rescaling(pre_rescaling)\n        self.configure_post_rescaling(post_rescaling)\n\n        if prior == \"uniform\":\n            self.prior = \"uniform\"\n            self.has_prime_prior = True")], "expect": "never switched (back) on"},
     {"id": "non-sampling-not-copied", "file": "nessai/proposal/flowproposal.py", "old": "        for p in config.livepoints.non_sampling_parameters:\n            x[p] = x_prime[p]\n", "new": "", "expect": "inverse_rescale copies every non-sampling field"},
     {"id": "reset-forgets-shift", "file": _RS, "old": "            if self.estimate_shift:\n                self.shift[p] = 0.0\n", "new": "", "expect": "restored by reset()"},
     {"id": "prime-bounds-stale", "file": _RS, "old": "            logger.debug(f\"New bounds: {self.bounds}\")\n            self.update_prime_prior_bounds()", "new": "            logger.debug(f\"New bounds: {self.bounds}\")", "expect": "prime-space prior bounds are recomputed"},
